@@ -30,6 +30,8 @@ def collect(ck, args):
                       "expect": meta.get("expect", "detected"), "superseded": meta.get("superseded_by_fix")})
     if args:
         items = [it for it in items if any(a in it["name"] for a in args)]
+        # run in the order the caller named them
+        items.sort(key=lambda it: min(i for i, a in enumerate(args) if a in it["name"]))
     return items
 
 
